@@ -159,6 +159,8 @@ def analyse_output(text):
         if "[rapid] failed after" in ln or "[rapid] panic after" in ln or "[rapid] flaky test" in ln or "[rapid] failed:" in ln or "[rapid] panic:" in ln:
             f = parse_fail(ln)
             kind = "rapid"
+            if f is None and "harness:" in ln:
+                f = {"key": "harness", "message": ln.strip()[:3000], "infra": True}
             if f is None:
                 if "panic" in ln:
                     f = {"key": "panic", "message": ln.strip()[:3000]}
@@ -441,7 +443,10 @@ def do_check(prop_id, tier, seed):
         if rc != 0 and not fails:
             infra.append((i, rc, logp))
         for f in fails:
-            all_fails.append((f, logp, cwd))
+            if f.get("infra"):
+                infra.append((i, rc, logp))
+            else:
+                all_fails.append((f, logp, cwd))
     fuzz_info = None
     if tier == "thorough" and cfg.get("fuzz") and not all_fails:
         ff, fuzz_info = run_fuzz(prop_id, cfg, tier, notes)
